@@ -166,6 +166,15 @@ func cvxOpt(toks []string) string {
 	return strings.ReplaceAll(strings.Join(toks, ""), "U+F6", "\u00f6")
 }
 
+func cvxOptionNeedsEscape(toks []string) bool {
+	for _, t := range toks {
+		if t == "U+F6" || t == "^" {
+			return true
+		}
+	}
+	return false
+}
+
 func cvxPeerOf(cs *cvxCase) string {
 	if cs.C.Peer == "v6" {
 		return cvxPeer6
@@ -830,6 +839,9 @@ type cvxGot struct {
 func cvxWireHeaders(cs *cvxCase, id int64) []cvxHdrLine {
 	lines := []cvxHdrLine{{cvxIDHeader, []string{strconv.FormatInt(id, 10)}}}
 	lines = append(lines, cvxHeaderSet(cs.C.Hdrs)...)
+	if cs.C.Kind == "sse" {
+		lines = append(lines, cvxHdrLine{"Accept", []string{"text/event-stream"}})
+	}
 	for _, h := range cvxManagedOrder {
 		vals := cvxForgedLines(cs, h)
 		if vals == nil {
@@ -1012,8 +1024,18 @@ func (w *cvxWorld) doWSOnce(cs *cvxCase, id int64) (*cvxGot, error) {
 		return nil, fmt.Errorf("reading handshake answer: %v", err)
 	}
 	g := &cvxGot{Status: resp.StatusCode, Header: resp.Header}
-	// the upstream ends the connection after the handshake; wait for the proxy to pass that on
-	io.Copy(io.Discard, br)
+	if resp.StatusCode == http.StatusSwitchingProtocols {
+		// the upstream ends the connection after the handshake; wait for the proxy to pass that on
+		io.Copy(io.Discard, br)
+		return g, nil
+	}
+	// an ordinary answer (redirect, no route, error): read it to its end, the connection stays open
+	var head bytes.Buffer
+	n, err := io.Copy(&cvxHead{b: &head, max: 4096}, resp.Body)
+	if err != nil {
+		return nil, fmt.Errorf("reading the answer to the handshake: %v", err)
+	}
+	g.BodyLen, g.Body = n, head.Bytes()
 	return g, nil
 }
 
